@@ -51,25 +51,44 @@ theorem ideal_prom (ρ : Env) (e : Expr) (b : Bool) (hi : ideal ρ (printE e).1 
 
 theorem printE_slice_sig (i w : Nat) (s : Bool) (lo hi : Nat) :
     printE (.slice (.sig i w s) lo hi) =
-      if w = 1 then (.id i w s, s)
-      else if hi - lo > 1 then (.psel (.id i w s) (hi - 1) lo, s) else (.bsel (.id i w s) lo, s) := by
+      if w = 1 then (if s then .concat [.id i w s] else .id i w s, false)
+      else if hi - lo > 1 then (.psel (.id i w s) (hi - 1) lo, false) else (.bsel (.id i w s) lo, false) := by
   rfl
+
+/-- The unsigned constant text denotes the constant. -/
+theorem ideal_printConstU (ρ : Env) (v : Int) (w : Nat) (h : v.natAbs < 2 ^ w) :
+    ideal ρ (printConstU v w) = v := by
+  have hlt : (v.natAbs : Int) < p2 w := by rw [← p2_natCast]; exact_mod_cast h
+  unfold printConstU
+  split
+  · rename_i hv
+    simp only [ideal, truncS, Bool.false_eq_true, if_false]
+    rw [Int.toNat_of_nonneg hv]
+    exact tn_of_range hv (by omega)
+  · rename_i hv
+    simp only [ideal, truncS, Bool.false_eq_true, if_false]
+    rw [tn_of_range (by omega) hlt]
+    omega
+
+/-- `_generate_constant`: the printed literal denotes the constant's value. -/
+theorem ideal_printConst (ρ : Env) (v : Int) (w : Nat) (s : Bool) (h : constOk v w s = true) :
+    ideal ρ (printConst v w s).1 = v := by
+  simp only [constOk, Bool.and_eq_true, decide_eq_true_eq] at h
+  cases s
+  · simp only [Bool.false_eq_true, if_false, decide_eq_true_eq] at h
+    simp only [printConst, Bool.false_eq_true, if_false]
+    exact ideal_printConstU ρ v w h.1
+  · simp only [if_true] at h
+    simp only [printConst, if_true, ideal, truncS]
+    rw [Int.toNat_of_nonneg (tn_nonneg w v), tn_tn (Nat.le_refl w)]
+    exact toS_tn_of_inRange h.2 h.1
 
 mutual
 theorem printE_ideal (ρ : Env) : ∀ (e : Expr), fitsP ρ e = true → ideal ρ (printE e).1 = evalF ρ e
   | .const v w s, h => by
-    simp only [fitsP, Bool.and_eq_true, decide_eq_true_eq] at h
-    have hlt : (v.natAbs : Int) < p2 w := by rw [← p2_natCast]; exact_mod_cast h.1
-    simp only [printE, printConst, evalF]
-    split
-    · rename_i hv
-      simp only [ideal, truncS, Bool.false_eq_true, if_false]
-      rw [Int.toNat_of_nonneg hv]
-      exact tn_of_range hv (by omega)
-    · rename_i hv
-      simp only [ideal, truncS, Bool.false_eq_true, if_false]
-      rw [tn_of_range (by omega) hlt]
-      omega
+    simp only [fitsP] at h
+    simp only [printE, evalF]
+    exact ideal_printConst ρ v w s h
   | .sig i w s, h => by
     simp only [fitsP, Bool.and_eq_true, decide_eq_true_eq] at h
     simp only [printE, ideal, evalF]
@@ -102,35 +121,41 @@ theorem printE_ideal (ρ : Env) : ∀ (e : Expr), fitsP ρ e = true → ideal ρ
         rw [h1, h2, idealBin_vop]
   | .mux c a b, h => by
     simp only [fitsP, Bool.and_eq_true] at h
-    obtain ⟨⟨⟨⟨hc, ha⟩, hb⟩, hpa⟩, hpb⟩ := h
+    obtain ⟨⟨⟨⟨⟨hc, ha⟩, hb⟩, hpa⟩, hpb⟩, hcond⟩ := h
     have ihc := printE_ideal ρ c hc
     have iha := printE_ideal ρ a ha
     have ihb := printE_ideal ρ b hb
     have h1 := ideal_prom ρ a _ iha hpa
     have h2 := ideal_prom ρ b _ ihb hpb
     simp only [Bool.and_eq_true, Bool.not_eq_true'] at h1 h2
+    simp only [condOk, beq_iff_eq, decide_eq_decide] at hcond
     simp only [printE, ideal, evalF, Bool.and_eq_true, Bool.not_eq_true', ihc, h1, h2]
+    by_cases hz : tn (bitsSign c).1 (evalF ρ c) = 0
+    · rw [if_neg (by simpa using hcond.2 hz), if_neg (by simpa using hz)]
+    · rw [if_pos (fun hh => hz (hcond.1 hh)), if_pos hz]
   | .slice a lo hi, h => by
-    simp only [fitsP, Bool.and_eq_true, decide_eq_true_eq, Bool.not_eq_true', Bool.and_eq_false_imp] at h
-    obtain ⟨⟨⟨⟨ha, hsig⟩, hlo⟩, hhi⟩, hone⟩ := h
+    simp only [fitsP, Bool.and_eq_true, decide_eq_true_eq] at h
+    obtain ⟨⟨⟨ha, hsig⟩, hlo⟩, hhi⟩ := h
     cases a with
     | sig i w s =>
       simp only [fitsP, Bool.and_eq_true, decide_eq_true_eq] at ha
-      simp only [bitsSign] at hhi hone
+      simp only [bitsSign] at hhi
       have hv := truncS_of_inRange ha.2 ha.1
       rw [printE_slice_sig]
       simp only [evalF]
       by_cases hw1 : w = 1
       · rw [if_pos hw1]
         subst hw1
-        have hs : s = false := by simpa using hone
-        subst hs
         have : lo = 0 := by omega
         subst this
         have : hi = 1 := by omega
         subst this
-        simp only [ideal, truncS, Bool.false_eq_true, if_false] at hv ⊢
-        simp [p2_zero, hv]
+        cases s
+        · simp only [Bool.false_eq_true, if_false, ideal, truncS] at hv ⊢
+          simp [p2_zero, hv]
+        · -- signed 1-bit operand: `{x}` is the unsigned 1-bit view
+          simp only [if_true, ideal, idealConcat, selfWidth, concatWidth, p2_zero, Int.mul_one, Int.add_zero,
+            tn_truncS, Int.ediv_one, Nat.sub_zero]
       · rw [if_neg hw1]
         by_cases hgt : hi - lo > 1
         · rw [if_pos hgt]
